@@ -379,18 +379,31 @@ class FakeEvent(_Shared):
         return True
 
 
+_RECV_WAITING = {}
+
+
 class FakeConn(_Shared):
     def __init__(self, buf, readable, writable):
         self._reg(); self._buf = buf; self.readable = readable; self.writable = writable; self.closed = False
 
+    PIPE_CAPACITY = 65536       # an OS pipe holds about 64 KiB: a larger message blocks the sender until a reader is receiving
+
     def send(self, obj):
         data = pickle.dumps(obj)
-        yield_point(self._key, 'send')
+        if len(data) > self.PIPE_CAPACITY:
+            yield_point(self._key, 'send-large', lambda: _RECV_WAITING.get(id(self._buf), 0) > 0)
+        else:
+            yield_point(self._key, 'send')
         if self.closed: raise OSError('handle is closed')
         self._buf.append(data)
 
     def recv(self):
-        yield_point(self._key, 'recv', lambda: len(self._buf) > 0)
+        k = id(self._buf)
+        _RECV_WAITING[k] = _RECV_WAITING.get(k, 0) + 1
+        try:
+            yield_point(self._key, 'recv', lambda: len(self._buf) > 0)
+        finally:
+            _RECV_WAITING[k] -= 1
         return pickle.loads(self._buf.popleft())
 
     def poll(self, timeout=0.0):
